@@ -996,6 +996,10 @@ class WorkerPool:
         if not self._workers:
             self.map_params = WorkerMapParams(func, worker_init, worker_exit, None, False, task_timeout,
                                               worker_init_timeout, worker_exit_timeout)
+
+            # A worker can die before the first task has been registered. It has to be replaced then, like any other
+            # worker that dies while the pool is used for apply tasks
+            self._last_job_type = JobType.APPLY
             self._start_workers()
 
         # Add task to the queue
